@@ -393,7 +393,7 @@ func TestC06(t *testing.T) {
 	rec.Describe("case = a dynamic-scope topology (1-5 resources, embedded or Loader-supplied, each with $dynamicAnchor N / $anchor N / nothing at its root or on a detached $defs child, distinct const markers) with 1-4 entry paths that visit 0-3 further resources in random order (revisits allowed) through $ref / pointer-form $dynamicRef / allOf hops entering each resource at a non-root subschema, ending in a $dynamicRef in fragment, resource-relative or pointer form; history = 2-10 Validate calls on one Resolved, each instance selecting 1-2 paths and a marker. Oracle: reference evaluator with explicit dynamic scope (outermost declaring resource wins; non-dynamic initial target behaves like $ref) per call, and the same verdict from a freshly resolved copy. Non-trivial: >=2 resources on the evaluation path declare the dynamic anchor (outermost != innermost != lexical) or none does (must behave as $ref). Distinct = distinct (topology, instance).",
 		"hops are in-place and acyclic by construction (distinct hop definitions per path position)",
 		"the anchor name is the same (N) in every resource: scoping, not naming, is under test")
-	rapid.Check(t, propC06(rec))
+	rapid.Check(t, watched("C06", propC06(rec)))
 }
 
 // propC06 is the property body, shared by TestC06 (rapid) and FuzzC06 (native fuzzing over
